@@ -25,6 +25,9 @@
 (* Mode = "chains": every chain of <= 2 directives x every value (strings  *)
 (*                  up to MaxLen over the adversarial alphabet and the     *)
 (*                  non-strings), printed directly, mode on and off        *)
+(* Mode = "cmds"  : every site preceded/surrounded by a command of every    *)
+(*                  kind (CmdKinds), Logger nil and installed: the bytes   *)
+(*                  are those of the bare site (CmdIndependent) and safe   *)
 (* Mode = "msgs"  : messages of three prints of one expression (chains     *)
 (*                  from MsgChains) rendered without and through a         *)
 (*                  translation: every print's bytes satisfy its own class *)
@@ -70,6 +73,12 @@ Chains == {<<>>} \cup {<<d>> : d \in Dirs} \cup {<<d1, d2>> : d1 \in Dirs, d2 \i
           \cup {<<c>> : c \in CustomDirs} \cup {<<c1, c2>> : c1 \in CustomDirs, c2 \in CustomDirs}
           \cup {<<c, d>> : c \in CustomDirs, d \in PairMates} \cup {<<d, c>> : c \in CustomDirs, d \in PairMates}
 
+\* attribute tuples of Mode = "cmds": every mode of the executing frame, with the other frame on and off
+CmdAttrs == {[ns |-> n, t |-> t, cns |-> c, ct |-> "unspecified"] :
+               n \in {"unspecified", "false"}, t \in {"unspecified", "false", "contextual", "deprecated-contextual"},
+               c \in {"unspecified", "false"}}
+            \cup {[ns |-> "false", t |-> "unspecified", cns |-> "unspecified", ct |-> t] : t \in {"true", "false"}}
+
 \* messages rendered through a translation (Mode = "msgs"): pairs and triples of prints
 MsgChains == {<<>>, <<D0("noAutoescape")>>, <<D0("id")>>, <<D0("escapeHtml")>>, <<Dir("insertWordBreaks", <<I(3)>>)>>,
               <<Dir("truncate", <<I(5)>>)>>, <<D0("escapeUri")>>, <<D0("vfQuote")>>, <<Dir("vfRawAppend", <<CustomArg>>)>>}
@@ -87,6 +96,8 @@ Init ==
      /\ kase \in [m : {"sites"}, site : Sites, ns : {"-"}, t : {"-"}]
   \/ /\ Mode = "chains"
      /\ kase \in [m : {"chains"}, chain : Chains, on : BOOLEAN, ix : {<<>>}, nsi : 0..Len(NonStrings)]
+  \/ /\ Mode = "cmds"
+     /\ kase \in [m : {"cmds"}, site : Sites, cmd : {"-"}, lognil : {TRUE}]
   \/ /\ Mode = "msgs"
      /\ kase \in [m : {"msgs"}, c1 : MsgChains, c2 : MsgChains, on : BOOLEAN]
   \/ /\ Mode = "export"
@@ -98,6 +109,9 @@ Next ==
   \/ /\ Mode = "sites"
      /\ kase.ns = "-"
      /\ \E a \in AutoescapeAttrs, b \in AutoescapeAttrs : kase' = [kase EXCEPT !.ns = a, !.t = b]
+  \/ /\ Mode = "cmds"
+     /\ kase.cmd = "-"
+     /\ \E k \in CmdKinds, ln \in BOOLEAN : kase' = [kase EXCEPT !.cmd = k, !.lognil = ln]
   \/ /\ Mode = "chains"
      /\ kase.nsi = 0
      /\ Len(kase.ix) < MaxLen
@@ -108,6 +122,10 @@ Safe ==
          \A cns \in AutoescapeAttrs, ct \in AutoescapeAttrs, chain \in SiteChains, vi \in DOMAIN SiteVals :
            (kase.site \in CalleeSites \/ (cns = "unspecified" /\ ct = "unspecified")) =>
              SafeCase(kase.site, [ns |-> kase.ns, t |-> kase.t, cns |-> cns, ct |-> ct], chain, SiteVals[vi])
+    [] kase.m = "cmds" /\ kase.cmd # "-" ->
+         \* (the bare sites themselves are checked safe in Mode = "sites")
+         \A a \in CmdAttrs, chain \in SiteChains, vi \in DOMAIN SiteVals :
+           CmdIndependent(kase.site, a, chain, SiteVals[vi], kase.cmd, kase.lognil)
     [] kase.m = "msgs" ->
          \A c3 \in MsgChains, vi \in DOMAIN SiteVals :
            MsgSafe(kase.on, <<kase.c1, kase.c2, c3>>, SiteVals[vi])
@@ -146,6 +164,7 @@ Export ==
   kase.m = "export" =>
     /\ PrintT(ToJson([vals |-> ExportVals,
                       texts |-> [i \in DOMAIN ExportVals |-> IF Printable(ExportVals[i]) THEN ToText(ExportVals[i]) ELSE ""],
+                      cmds |-> SetToSeq(CmdKinds),
                       canary |-> "é€\"\\\n<&>'"]))
     /\ \A site \in Sites, a \in Attr4 :
          (site \in CalleeSites \/ (a.cns = "unspecified" /\ a.ct = "unspecified")) =>
